@@ -427,4 +427,194 @@ theorem crossCheckRow_consistency_eq (thr : ℚ) (dL dR : List Val) (m : Nat →
       | (simp [sameLen, scatterOk, gatherOk, inRange, len, embedRow, hr, ile, ilt]; done)
       | (simp [sameLen, scatterOk, gatherOk, inRange, len, embedRow, hr, ile, ilt]; intros; omega)
 
+/-! ## Stage 3: the flag update -/
+
+theorem int_mul_eq (a b : Int) : Int.mul a b = a * b := rfl
+
+theorem gather_range_cast {α : Type} (d : α) (n : Nat) (g : Nat → α) (IC : List Nat) (hIC : ∀ c ∈ IC, c < n) :
+    gather d ((List.range n).map g) (IC.map (fun (c : Nat) => (c : Int))) = IC.map g := by
+  rw [gather_map]
+  apply List.map_congr_left
+  intro c hc
+  rw [getAt_map_range, if_pos (hIC c hc)]
+
+theorem gatherOk_range_cast {α : Type} (n : Nat) (g : Nat → α) (IC : List Nat) (hIC : ∀ c ∈ IC, c < n) :
+    gatherOk ((List.range n).map g) (IC.map (fun (c : Nat) => (c : Int))) = true := by
+  simp only [gatherOk, List.all_map, List.all_eq_true, Function.comp, inRange, len, List.length_map, List.length_range,
+    Bool.and_eq_true, decide_eq_true_eq]
+  intro c hc
+  exact ⟨Int.natCast_nonneg c, by exact_mod_cast hIC c hc⟩
+
+theorem sameLen_map {α β γ : Type} (L : List α) (a : α → β) (b : α → γ) : sameLen (L.map a) (L.map b) = true := by
+  simp [sameLen]
+
+theorem all_map_id {α : Type} (L : List α) (p : α → Bool) (h : ∀ x ∈ L, p x = true) : (L.map p).all id = true := by
+  simp only [List.all_map, List.all_eq_true]
+  intro x hx
+  exact h x hx
+
+theorem castU16_512 (k : Nat) : castU16 (Int.mul 512 (k : Int)) = 512 * k := by
+  show ((512 : Int) * (k : Int)).toNat = 512 * k
+  omega
+theorem castU16_256 (k : Nat) : castU16 (Int.mul 256 (k : Int)) = 256 * k := by
+  show ((256 : Int) * (k : Int)).toNat = 256 * k
+  omega
+
+theorem castU16_512' (k : Nat) : castU16 (512 * (k : Int)) = 512 * k := castU16_512 k
+theorem castU16_256' (k : Nat) : castU16 (256 * (k : Int)) = 256 * k := castU16_256 k
+
+/-- **the flag update, for every row**: stage 3 adds OCCLUSION, then MISMATCH·k, and takes OCCLUSION·k back at the given columns;
+    none of its 15 tests fails when the columns are in the row, their flag words leave room for bits 8 and 9, and k ≤ 1 -/
+theorem crossCheckRow_flags_eq (n : Nat) (m : Nat → Nat) (conf : List Fl) (IC : List Nat) (k : Nat → Nat)
+    (hIC : ∀ c ∈ IC, c < n ∧ m c + 768 < 65536) (hk : ∀ c, k c ≤ 1) :
+    crossCheckRow_s3 ((List.range n).map m) conf (IC.map (fun (c : Nat) => (c : Int))) (IC.map (fun c => ((k c : Nat) : Int)))
+      = .ok ((List.range n).map (fun c => if c ∈ IC then m c + 256 + 512 * k c - 256 * k c else m c), conf) := by
+  have hI : ∀ c ∈ IC, c < n := fun c hc => (hIC c hc).1
+  simp only [crossCheckRow_s3, mapR, mapL, zip2, List.map_map, Function.comp_def, scatterOk,
+    gather_range_cast _ n _ IC hI, gatherOk_range_cast n _ IC hI, zipWith_map_map, scatterSet_range, sameLen_map,
+    Bool.true_and, Bool.and_true]
+  rw [if_pos]
+  · congr 1
+    refine Prod.ext ?_ rfl
+    apply List.map_congr_left
+    intro c _
+    by_cases hin : c ∈ IC
+    · simp only [hin, if_true, castU16_512, castU16_256, Nat.add_eq, Nat.sub_eq]
+    · simp only [hin, if_false]
+  · simp only [Bool.and_eq_true]
+    refine ⟨⟨⟨⟨?_, ?_⟩, ?_⟩, ?_⟩, ?_⟩ <;> apply all_map_id <;> intro x hx <;> (obtain ⟨h1, h2⟩ := hIC x hx) <;>
+      (have h3 := hk x) <;>
+      simp only [hx, if_true, castU16_512, castU16_256, castU16_512', castU16_256', u16AddOk, u16SubOk, u16Ok, int_mul_eq, Nat.add_eq,
+        decide_eq_true_eq, Bool.and_eq_true] <;> omega
+
+/-! ## Stage 2: the witness search -/
+
+instance : Inhabited Fl := ⟨.nan⟩
+
+theorem all_id_map_true {α : Type} (L : List α) : (L.map (fun _ => true)).all id = true := by
+  simp
+
+theorem length_whereIdx_map {α : Type} [Inhabited α] (L : List α) (p : α → Bool) :
+    (whereIdx (L.map p)).length = (L.filter p).length := by
+  have := congrArg List.length (gather_where () L (fun _ => ()) p)
+  simpa [gather] using this
+
+theorem sameShape_map {α β γ δ : Type} (L : List α) (R : List β) (a : α → β → γ) (b : α → β → δ) :
+    sameShape (L.map fun x => R.map (a x)) (L.map fun x => R.map (b x)) = true := by
+  simp [sameShape, zipWith_map_map]
+
+theorem gather2Ok_map {α β γ : Type} (L : List α) (R : List β) (f : α → β → γ) (p : α → β → Bool) :
+    gather2Ok (L.map fun x => R.map (f x)) (L.map fun x => whereIdx (R.map (p x))) = true := by
+  simp only [gather2Ok, zipWith_map_map, List.length_map, beq_self_eq_true, Bool.true_and]
+  have : ∀ x, gatherOk (R.map (f x)) (whereIdx (R.map (p x))) = true := fun x => gatherOk_where _ _ (by simp)
+  simp [this]
+
+theorem scatter2Ok_map {α β γ δ : Type} [Inhabited β] (L : List α) (R : List β) (a : α → β → γ) (p : α → β → Bool)
+    (g : α → β → δ) :
+    scatter2Ok (L.map fun x => R.map (a x)) (L.map fun x => whereIdx (R.map (p x)))
+      (L.map fun x => (R.filter (p x)).map (g x)) = true := by
+  simp only [scatter2Ok, zipWith3_map, List.length_map, beq_self_eq_true, Bool.true_and]
+  have : ∀ x, scatterOk (R.map (a x)) (whereIdx (R.map (p x))) ((R.filter (p x)).map (g x)) = true := by
+    intro x
+    simp only [scatterOk, sameLen, length_whereIdx_map, List.length_map, beq_self_eq_true, Bool.and_true]
+    exact gatherOk_where _ _ (by simp)
+  simp [this]
+
+/-! ### scalars of the witness grid -/
+
+theorem index_add (d : Int) (c : Nat) : Fl.add (ofInt d) (ofInt (c : Int)) = Fl.fin (((d + (c : Int) : Int)) : ℚ) := by
+  simp [ofInt, Fl.add]
+
+theorem le_fin0 (s : Int) : Fl.le (.fin 0) (.fin (s : ℚ)) = decide (0 ≤ s) := by
+  simp only [Fl.le, Fl.lt, Fl.eq]
+  rw [Bool.eq_iff_iff]
+  simp only [Bool.or_eq_true, decide_eq_true_eq]
+  constructor
+  · rintro (h | h)
+    · exact_mod_cast le_of_lt h
+    · exact_mod_cast le_of_eq h
+  · intro h
+    rcases lt_or_eq_of_le h with h1 | h1
+    · left; exact_mod_cast h1
+    · right; exact_mod_cast h1
+
+theorem lt_finn (s : Int) (n : Nat) : Fl.lt (.fin (s : ℚ)) (ofInt (n : Int)) = decide (s < (n : Int)) := by
+  simp only [Fl.lt, ofInt]
+  rw [Bool.eq_iff_iff]
+  simp only [decide_eq_true_eq]
+  exact_mod_cast Iff.rfl
+
+theorem castInt_fin (s : Int) : castInt (.fin (s : ℚ)) = s := truncQ_intCast s
+
+theorem match_eq (n : Nat) (dR : List Val) (c : Nat) (d : Int) (b : Bool)
+    (hb : b = true ↔ (0 ≤ d + (c : Int) ∧ d + (c : Int) < (n : Int))) :
+    Fl.eq (PyVecIdx.rint (if b = true then Fl.ofVal (dR.getD (d + (c : Int)).toNat Val.nan) else Fl.pinf))
+      (ofInt (Int.mul (-1) d)) = matchAt n dR c d := by
+  unfold matchAt dispRightAt
+  rw [Int.add_comm (c : Int) d]
+  by_cases h : 0 ≤ d + (c : Int) ∧ d + (c : Int) < (n : Int)
+  · rw [if_pos (hb.mpr h), if_pos h]
+    cases dR.getD (d + (c : Int)).toNat Val.nan with
+    | nan => rfl
+    | num q =>
+      simp only [Fl.ofVal, PyVecIdx.rint, Fl.eq, ofInt, int_mul_eq]
+      rw [Bool.eq_iff_iff]
+      simp only [decide_eq_true_eq, beq_iff_eq]
+      constructor
+      · intro h1
+        have h2 : rintQ q = -1 * d := by exact_mod_cast h1
+        show rintQ q = -d
+        omega
+      · intro h1
+        have h2 : rintQ q = -d := h1
+        rw [h2]; push_cast; ring
+  · have hb' : ¬ (b = true) := fun e => h (hb.mp e)
+    rw [if_neg hb', if_neg h]
+    rfl
+
+theorem countTrue_map {α : Type} (L : List α) (f : α → Bool) : countTrue (L.map f) = ((L.filter f).length : Int) := by
+  unfold countTrue
+  congr 1
+  induction L with
+  | nil => rfl
+  | cons x L ih => by_cases h : f x <;> simp [List.filter_cons, h, ih]
+
+theorem comp_eq (n : Nat) (dR : List Val) (c : Nat) (R : List Int) (f : Int → Bool) (hf : ∀ d, f d = matchAt n dR c d) :
+    (if ilt 1 (countTrue (R.map f)) = true then (1 : Int) else countTrue (R.map f)) = ((comp n dR c R : Nat) : Int) := by
+  have : f = matchAt n dR c := funext hf
+  subst this
+  rw [countTrue_map]
+  unfold comp
+  simp only [ilt]
+  by_cases h : (R.filter (matchAt n dR c)).length > 1
+  · have h' : (1 : Int) < ((R.filter (matchAt n dR c)).length : Int) := by exact_mod_cast h
+    simp [h, h']
+  · have h' : ¬ (1 : Int) < ((R.filter (matchAt n dR c)).length : Int) := by exact_mod_cast h
+    simp [h, h']
+
+/-- **the witness search, for every row**: stage 2 returns, for each invalidated column, the hand model's `comp` (the number of
+    disparities `d` of the range with `rint(dR(c + d)) = −d`, inf outside the image, clipped to 1); none of its 7 tests fails -/
+theorem crossCheckRow_witness_eq (n : Nat) (dR : List Val) (hr : dR.length = n) (R : List Int) (conf : List Fl) (IC : List Nat) :
+    crossCheckRow_s2 (embedRow dR) R (n : Int) conf (IC.map (fun (c : Nat) => (c : Int)))
+      = .ok (conf, IC.map (fun (c : Nat) => (c : Int)), IC.map (fun c => ((comp n dR c R : Nat) : Int))) := by
+  simp only [crossCheckRow_s2, tileRows_len, tileCols_len, mmap, mzip, fullLike, where2, gather2, rgather, scatter2, rowCounts,
+    mapR, mapL, List.map_map, Function.comp_def, zipWith_map_map, zipWith3_map, gather_where, gather_map, scatterSet_where,
+    maskSet_map, getAt_embedRow, sameShape_map, gather2Ok_map, scatter2Ok_map, sameLen_map, Bool.true_and, Bool.and_true,
+    index_add, le_fin0, lt_finn, castInt_fin]
+  rw [if_pos]
+  · congr 1
+    refine Prod.ext rfl (Prod.ext rfl ?_)
+    apply List.map_congr_left
+    intro c _
+    apply comp_eq
+    intro d
+    refine match_eq n dR c d _ ?_
+    simp only [Bool.and_eq_true, decide_eq_true_eq] <;> tauto
+  · simp only [rgatherOk, List.all_map, List.all_eq_true, gatherOk, Function.comp, List.mem_filter, inRange, len,
+      Bool.and_eq_true, decide_eq_true_eq]
+    intro c _ d hd
+    have : (embedRow dR).length = n := by simp [embedRow, hr]
+    rw [this]
+    tauto
+
 end Pandora.C07Kernels
